@@ -2,8 +2,9 @@
    Statements only; the proofs are in Proofs/QueryProofs.v.
    Vocabulary (Proofs/QueryProofs.v): [query_text] the text of a list, [items_1_255] all keys and
    values over code points 1..255, [log_below cap log] every store of the write log has an index
-   below cap, [total_size] the worst-case size in unbounded integers, [sum_wraps] the shape of
-   finding D10 (each item passes the per-item guard, the sum exceeds INT_MAX). *)
+   below cap, [total_size] the worst-case size in unbounded integers, [no_item_too_large] every item
+   passes the per-item guard, [lens_ok] the lengths are not negative.  The int additions and
+   subtractions of the chars-required pass are modelled modulo 2^32 (Model/Query.v). *)
 From UP Require Import Base.Chars Model.Uri Model.Escape Model.Query Spec.PctSpec Spec.FormUrl
   Proofs.QueryProofs.
 From Coq Require Import ZArith.
@@ -49,10 +50,10 @@ Theorem C17_buffer : forall stp nb cap l out w log buf,
 Proof. exact compose_ex_buffer. Qed.
 Print Assumptions C17_buffer.
 
-(* the chars-required figure (plus one for the terminator) is sufficient for composing to
-   succeed, and the text is not longer than the figure — outside the D10 shape *)
+(* whenever chars-required succeeds, its figure plus one for the terminator is sufficient for
+   composing to succeed, and the text is not longer than the figure *)
 Theorem C17_required_sufficient : forall stp nb l r,
-  chars_required stp nb l = ZOk r -> sum_wraps nb (map item_len l) = false ->
+  chars_required stp nb l = ZOk r ->
   forall cap, r + 1 <= cap ->
   exists log, compose_ex false stp nb cap l
               = COk (query_text stp nb l) (Z.of_nat (length (query_text stp nb l)) + 1) log
@@ -60,30 +61,37 @@ Theorem C17_required_sufficient : forall stp nb l r,
 Proof. exact chars_required_sufficient. Qed.
 Print Assumptions C17_required_sufficient.
 
-(* size computations: outside the D10 shape the figure is the exact worst-case size, and an item
-   beyond the per-item limit is refused *)
+(* size computations, every list: the figure is the exact worst-case size and at most INT_MAX, or
+   the call is refused with the too-large code (an item beyond the per-item limit, or a total
+   above INT_MAX); no int operation of the pass wraps *)
 Theorem C17_required_no_wrap : forall nb ls,
-  ls <> [] -> lens_ok ls -> sum_wraps nb ls = false ->
+  ls <> [] -> lens_ok ls ->
   chars_required_len nb ls =
-    if no_item_too_large nb ls then ZOk (total_size nb ls) else ZErr URI_ERROR_OUTPUT_TOO_LARGE.
+    if no_item_too_large nb ls && (total_size nb ls <=? INT_MAX)
+    then ZOk (total_size nb ls) else ZErr URI_ERROR_OUTPUT_TOO_LARGE.
 Proof. exact chars_required_len_no_wrap. Qed.
 Print Assumptions C17_required_no_wrap.
 
-(* D10: "refused rather than wrapped" is false for uriComposeQueryCharsRequiredEx on the
-   unchanged code: one item with key = value = 715827881 characters, normalizeBreaks = false *)
-Theorem C17_no_wrap_refuted :
-  exists nb ls, ls <> [] /\ lens_ok ls /\ sum_wraps nb ls = true /\ total_size nb ls > INT_MAX
-                /\ chars_required_len nb ls = ZOk (-9).
-Proof. exact chars_required_no_wrap_refuted. Qed.
-Print Assumptions C17_no_wrap_refuted.
+(* the witness of the former finding D10 (one item, key = value = 715827881 characters,
+   normalizeBreaks = false; the unrepaired code reported success and -9) is refused *)
+Theorem C17_former_wrap_witness_refused :
+  lens_ok [(715827881, Some 715827881)]
+  /\ no_item_too_large false [(715827881, Some 715827881)] = true
+  /\ total_size false [(715827881, Some 715827881)] = 4294967287
+  /\ chars_required_len false [(715827881, Some 715827881)] = ZErr URI_ERROR_OUTPUT_TOO_LARGE.
+Proof. exact former_wrap_witness_refused. Qed.
+Print Assumptions C17_former_wrap_witness_refused.
 
-(* the allocating variant refuses or returns the text (calloc granting total + 1 elements) *)
+(* the allocating variant, every list and every calloc limit: refused with the too-large code
+   exactly when chars-required refuses; the allocation code for a total of exactly INT_MAX or when
+   calloc does not grant total + 1 elements; otherwise the text *)
 Theorem C17_malloc_no_wrap : forall cm stp nb l,
-  l <> [] -> sum_wraps nb (map item_len l) = false ->
-  total_size nb (map item_len l) + 1 <= cm ->
+  l <> [] ->
   compose_malloc cm stp nb l =
-    if negb (no_item_too_large nb (map item_len l)) then MErr URI_ERROR_OUTPUT_TOO_LARGE
+    if negb (no_item_too_large nb (map item_len l) && (total_size nb (map item_len l) <=? INT_MAX))
+    then MErr URI_ERROR_OUTPUT_TOO_LARGE
     else if total_size nb (map item_len l) =? INT_MAX then MErr URI_ERROR_MALLOC
+    else if total_size nb (map item_len l) + 1 >? cm then MErr URI_ERROR_MALLOC
     else MOk (query_text stp nb l).
 Proof. exact compose_malloc_no_wrap. Qed.
 Print Assumptions C17_malloc_no_wrap.
@@ -102,7 +110,7 @@ Definition ex_list : list qitem :=
   [([97%N; 32%N], Some [38%N; 61%N]); ([], None); ([98%N], None); ([], Some []); ([10%N], Some [200%N])].
 
 Example C17_nonvacuous_roundtrip :
-  items_1_255 ex_list /\ sum_wraps true (map item_len ex_list) = false
+  items_1_255 ex_list /\ total_size true (map item_len ex_list) = 49
   /\ (exists log, compose_ex false true true 50 ex_list
         = COk [97;43;61;37;50;54;37;51;68; 38; 38;98; 38;61; 38;37;48;68;37;48;65;61;37;67;56]%N 26 log)
   /\ chars_required true true ex_list = ZOk 49
